@@ -226,7 +226,17 @@ def run(tier, res, replay=None):
                                          setup={'param_update_tol': 0.02}), 1),
              ('core-dd-lowfi-noflow', core({'A': A, 'DD': DD, 'U': U},
                                            ['DD', 'A', 'U', 'A', 'A', 'U', 'A'],
-                                           gap_model='no_flow'), 1)]
+                                           gap_model='no_flow'), 1),
+             # two types with the same ring count and different pin pitch
+             # side by side (the shared gap cells follow the smaller pitch,
+             # whichever assembly is numbered first)
+             ('core-equal-rings-two-pitches', core(
+                 {'B': B, 'B2': fitted_type(3, OF, p2d=1.12)},
+                 ['B', 'B2', 'B', 'B', 'B2', 'B2', 'B']), 1),
+             ('core-equal-rings-two-pitches-noflow', core(
+                 {'B': B, 'B2': fitted_type(3, OF, p2d=1.12)},
+                 ['B2', 'B', 'B2', 'B', 'B', 'B2', 'B'],
+                 gap_model='no_flow'), 2)]
     if tier == 'thorough':
         cores += [('core-ductavg', core({'A': A, 'B': B},
                                         ['A', 'B', 'A', 'A', 'A', 'A', 'A'],
